@@ -65,7 +65,8 @@ Qed.
 
 (* the table is exact: the call raises exactly the listed exception, and succeeds when none is listed; the result then
    carries the requested shape, the reported wavelength, the oversampled output pixel scale, the focal length of the
-   input, the opposite plane type, and ONE untilted field at offset (0, 0) holding the whole N0 x N1 grid *)
+   input, the opposite plane type, and ONE untilted field at offset (0, 0) of exactly the shape of the result (the part
+   of the N0 x N1 grid the result covers: fix 1b12b57) *)
 Theorem propagate_fft_verdict N0 N1 (w : wavefront S) du shape os scratch :
   0 < N0 -> 0 < N1 -> (forall f, In f (wdata w) -> fgood S f) ->
   (scratch = None -> 0 < fst (wshape w) /\ 0 < snd (wshape w)) ->
@@ -78,7 +79,8 @@ Theorem propagate_fft_verdict N0 N1 (w : wavefront S) du shape os scratch :
       wpix out = (fst du / zq os, snd du / zq os)%Qc /\
       wz out = wz w /\
       propagate_ptype (wpt w) = Ok (wpt out) /\
-      wdata out = [mkField (D2 F) 0 0 []] /\ nr F = N0 /\ nc F = N1 /\
+      wdata out = [mkField (D2 F) 0 0 []] /\
+      nr F = fst (shape_out N0 N1 shape os) /\ nc F = snd (shape_out N0 N1 shape os) /\
       (scratch = None <-> sc = None)
   end.
 Proof.
@@ -91,8 +93,32 @@ Proof.
     destruct (too_small N0 N1 scratch) eqn:Es;
     [unfold too_small in Es; destruct scratch as [buf|]; [|discriminate]; unfold fft_field; rewrite Es; reflexivity|];
     destruct (fft_field_ok N0 N1 w scratch H0 H1 Hg Es Hw) as (F & sc & E & F0 & F1 & Hsc);
-    rewrite E; cbn [rbind fst snd]; eexists; exists sc, F; split; [reflexivity|]; cbn [wshape wlam wpix wz wpt wdata];
+    rewrite E; cbn [rbind fst snd]; eexists; exists sc; eexists; split; [reflexivity|]; cbn [wshape wlam wpix wz wpt wdata];
     repeat split; try reflexivity; try assumption; apply Hsc.
+Qed.
+
+(* the result is a well-formed wavefront in the sense the theorems need of their INPUT: its field is an array and lies
+   inside the wavefront's own shape - so a result can be propagated again, with or without scratch (second leg of a relay) *)
+Theorem propagate_fft_output_wellformed N0 N1 (w : wavefront S) du shape os scratch out sc :
+  0 < N0 -> 0 < N1 -> (forall f, In f (wdata w) -> fgood S f) ->
+  (scratch = None -> 0 < fst (wshape w) /\ 0 < snd (wshape w)) ->
+  0 < fst (shape_out N0 N1 shape os) -> 0 < snd (shape_out N0 N1 shape os) ->
+  propagate_fft_N sq N0 N1 w du shape os scratch = Ok (out, sc) ->
+  (forall f, In f (wdata out) -> fgood S f) /\ has_tilt out = false /\
+  0 < fst (wshape out) /\ 0 < snd (wshape out) /\ inside_shape S out.
+Proof.
+  intros H0 H1 Hg Hw P0 P1 E.
+  pose proof (propagate_fft_verdict N0 N1 w du shape os scratch H0 H1 Hg Hw) as V.
+  destruct (expected_error N0 N1 w shape os scratch); [congruence|].
+  destruct V as (out' & sc' & F & E' & Sh & _ & _ & _ & _ & D & F0 & F1 & _).
+  rewrite E in E'. injection E' as <- <-.
+  assert (G : forall f, In f (wdata out) -> fgood S f).
+  { rewrite D. intros f [<-|[]]. unfold fgood. cbn [fd]. lia. }
+  split; [exact G|]. split; [unfold has_tilt; rewrite D; reflexivity|]. rewrite Sh. split; [exact P0|]. split; [exact P1|].
+  unfold inside_shape. rewrite D, Sh. intros f r c [<-|[]] Hout. rewrite embed_D2. unfold embedA. rewrite F0, F1.
+  replace (r - 0 + fst (shape_out N0 N1 shape os) / 2) with (r + fst (shape_out N0 N1 shape os) / 2) by ring.
+  replace (c - 0 + snd (shape_out N0 N1 shape os) / 2) with (c + snd (shape_out N0 N1 shape os) / 2) by ring.
+  rewrite Hout. reflexivity.
 Qed.
 
 (* ------------------------------------------------------------------ what the call leaves in the scratch buffer *)
@@ -143,3 +169,35 @@ Proof.
     replace ((0 <=? i) && (i <? N0) && (0 <=? j) && (j <? N1)) with false by lia. reflexivity.
 Qed.
 End FftDeep.
+
+(* what a call without a requested shape returns, as one equation: ONE array field of the grid's shape whose samples are
+   the unitary Fourier sums of the input plane on the grid (for composing two legs: Proofs/ChainRelayP.v) *)
+Section FullGrid.
+Variable S : Scalar.
+Hypothesis Sring : is_ring S.
+Hypothesis Skernel : kernel_laws S.
+Hypothesis Speriod : periodic S.
+Variable sq : Qc -> S.
+
+Lemma propagate_fft_N_full_grid N0 N1 (w : wavefront S) du os scratch pt :
+  0 < N0 -> 0 < N1 -> has_tilt w = false -> propagate_ptype (wpt w) = Ok pt ->
+  (forall f, In f (wdata w) -> fgood S f) -> scratch_ok S N0 N1 w scratch ->
+  exists F sc, propagate_fft_N sq N0 N1 w du None os scratch
+               = Ok (mkWf [mkField (D2 F) 0 0 []] (N0, N1) (prop_wavelength N0 N1 (wpix w) du (wz w) os)
+                          (fst du / zq os, snd du / zq os)%Qc (wz w) pt, sc) /\
+    nr F = N0 /\ nc F = N1 /\
+    forall a b, 0 <= a < N0 -> 0 <= b < N1 ->
+      get F a b = (fourier_sum (grid_of S (wdata w) N0 N1) (/ zq N0)%Qc (/ zq N1)%Qc 0 0
+                               (zq (a - N0 / 2)) (zq (b - N1 / 2)) * ortho_scale sq N0 N1)%K.
+Proof.
+  intros H0 H1 Ht Hpt Hg Hsc.
+  destruct (fft_field_spec S Sring Skernel Speriod sq N0 N1 w scratch H0 H1 Hg Hsc) as (F0 & sc & E & S1 & S2 & V).
+  exists (pad2 F0 N0 N1), sc. split.
+  { unfold propagate_fft_N. rewrite Ht, Hpt. cbn [rbind out_shape]. rewrite E. cbn [rbind fst snd]. reflexivity. }
+  split; [reflexivity|]. split; [reflexivity|]. intros a b Ha Hb.
+  rewrite pad_origin by lia. unfold embedA, inr. rewrite S1, S2.
+  replace (a - N0 / 2 - 0 + N0 / 2) with a by ring. replace (b - N1 / 2 - 0 + N1 / 2) with b by ring.
+  replace ((0 <=? a) && (a <? N0) && ((0 <=? b) && (b <? N1))) with true by lia.
+  now apply V.
+Qed.
+End FullGrid.
